@@ -1,4 +1,214 @@
-import TflModel.Model.Dykstra
+import TflModel.Lemmas.LatticeExec
+/-!
+# C01 — the Lattice weight constraint (strict mode) / `finalize_constraints` return kernels that
+meet every strict shape constraint
+
+Model: `Tfl.Lat.finalize` (`lattice_lib.finalize_constraints`), `clipBounds` and
+`latticeConstraintT` (`LatticeConstraints.__call__`), one unit. The input of the finalisation is
+ARBITRARY ("whatever the Dykstra iterations returned, for every iteration count").
+
+Proved at full strength for the configuration classes
+  (A) any monotonicities, any number of Edgeworth trusts of either direction, any bounds,
+      no trapezoid trusts                                   — `C01_strict_edgeworth_class`
+  (A0) no trusts at all (monotonicity + bounds)             — instance of (A)
+and transported to the executable table model (`C01_exec_edgeworth_class`).
+Configurations with trapezoid trusts are covered by the correspondence + oracle of every run;
+inside them the class "Edgeworth present ∧ trapezoid with monotone conditional axis ∧ a third
+axis" genuinely violates the property (finding F-C01-a): `C01_counter_witness`.
+`C01_full` keeps the unrestricted statement visible.
+-/
 namespace Tfl.C01
-theorem placeholder : True := trivial
+open Tfl Tfl.Lat
+
+/-- in-box bounds -/
+def InBounds (sizes : List Nat) (lo hi : Option ℚ) (w : W) : Prop :=
+  ∀ idx, InRange sizes idx → (∀ l, lo = some l → l ≤ w idx) ∧ (∀ h, hi = some h → w idx ≤ h)
+
+/-- the trapezoid inequalities of one trust -/
+def TrapOK (sizes : List Nat) (tr : Trust) (w : W) : Prop :=
+  ∀ idx, InRange sizes idx → ∀ j, j + 1 < sizes.getD tr.cond 0 →
+    if tr.pos then
+      gat w tr.main tr.cond 0 (j+1) idx ≤ gat w tr.main tr.cond 0 j idx ∧
+      gat w tr.main tr.cond (sizes.getD tr.main 0 - 1) j idx ≤
+        gat w tr.main tr.cond (sizes.getD tr.main 0 - 1) (j+1) idx
+    else
+      gat w tr.main tr.cond 0 j idx ≤ gat w tr.main tr.cond 0 (j+1) idx ∧
+      gat w tr.main tr.cond (sizes.getD tr.main 0 - 1) (j+1) idx ≤
+        gat w tr.main tr.cond (sizes.getD tr.main 0 - 1) j idx
+
+/-- every strict constraint of the configuration, for one unit -/
+def Strict (c : Cfg) (w : W) : Prop :=
+  (∀ d, d < c.sizes.length → c.mono.getD d false = true → MonoAx c.sizes d w) ∧
+  (∀ tr ∈ c.edgeworth, EdgeOK c.sizes tr w) ∧
+  (∀ tr ∈ c.trapezoid, TrapOK c.sizes tr w) ∧
+  InBounds c.sizes c.lo c.hi w
+
+/-- what `verify_hyperparameters` guarantees about an accepted configuration -/
+structure CfgWF (c : Cfg) : Prop where
+  trust_wf : ∀ tr ∈ c.edgeworth ++ c.trapezoid, TrustWF c.sizes tr ∧ c.mono.getD tr.main false = true
+  compat : c.edgeworth.Pairwise (fun a b => Compatible a b ∧ Compatible b a)
+  bounds : BoundsWF c.lo c.hi
+
+/-- **the unrestricted statement** (kept visible; false on the current tree: `C01_counter_witness`) -/
+def C01_full : Prop :=
+  ∀ (c : Cfg), CfgWF c → ∀ w : W, Strict c (clipBounds c.lo c.hi (finalize c w))
+
+theorem EdgeOK.congr {sizes : List Nat} {tr : Trust} {f g : W} (h : AgreeOn sizes f g)
+    (hf : EdgeOK sizes tr f) : EdgeOK sizes tr g := by
+  intro idx hr i j hi hj
+  rw [← eviol_agree h hr hi hj]
+  exact hf idx hr i j hi hj
+
+/-- the Edgeworth stage: afterwards every listed trust holds and monotonicity is kept -/
+theorem approxEdgeworth_spec (sizes : List Nat) :
+    ∀ (trs : List Trust), (∀ tr ∈ trs, TrustWF sizes tr) →
+      trs.Pairwise (fun a b => Compatible a b ∧ Compatible b a) →
+      ∀ (w : W) (done : List Trust), (∀ tr ∈ done, TrustWF sizes tr) →
+        (∀ a ∈ done, ∀ b ∈ trs, Compatible b a) → (∀ tr ∈ done, EdgeOK sizes tr w) →
+        (∀ tr, tr ∈ done ∨ tr ∈ trs → EdgeOK sizes tr (approxEdgeworth sizes trs w)) ∧
+        (∀ d, MonoAx sizes d w → MonoAx sizes d (approxEdgeworth sizes trs w)) := by
+  intro trs
+  induction trs with
+  | nil =>
+    intro _ _ w done _ _ hd
+    exact ⟨fun tr h => (by rcases h with h | h; exact hd tr h; cases h), fun d h => h⟩
+  | cons t r ih =>
+    intro hwf hp w done hdwf hcomp hd
+    rw [List.pairwise_cons] at hp
+    have hwt := hwf t (List.mem_cons_self ..)
+    have := ih (fun x hx => hwf x (List.mem_cons_of_mem _ hx)) hp.2 (edgeworthOne sizes t w) (done ++ [t])
+      (fun x hx => by
+        rcases List.mem_append.mp hx with h | h
+        · exact hdwf x h
+        · simp at h; subst h; exact hwt)
+      (fun a ha b hb => by
+        rcases List.mem_append.mp ha with h | h
+        · exact hcomp a h b (List.mem_cons_of_mem _ hb)
+        · simp at h; subst h; exact (hp.1 b hb).2)
+      (fun x hx => by
+        rcases List.mem_append.mp hx with h | h
+        · exact edgeworthOne_keeps_other sizes t x hwt (hdwf x h) (hcomp x h t (List.mem_cons_self ..)) w (hd x h)
+        · simp at h; subst h; exact edgeworthOne_edgeOK sizes x hwt w)
+    refine ⟨fun tr htr => ?_, fun d hm => ?_⟩
+    · apply this.1
+      rcases htr with h | h
+      · exact Or.inl (List.mem_append_left _ h)
+      · rcases List.mem_cons.mp h with e | e
+        · exact Or.inl (by simp [e])
+        · exact Or.inr e
+    · exact this.2 d (edgeworthOne_mono sizes t hwt w hm)
+
+theorem approxTrapezoid_nil (sizes : List Nat) (ew : List Trust) (w : W) :
+    approxTrapezoid sizes ew [] w = w := rfl
+
+/-- **C01 (class A): monotonicity + any Edgeworth trusts + any bounds, no trapezoid trusts.**
+For every accepted configuration of this class and EVERY input kernel (e.g. whatever the Dykstra
+iterations returned, for every iteration count), the strict finalisation followed by the final
+clip returns a kernel that is monotone along every monotone dimension, satisfies every Edgeworth
+trust inequality and lies within the output bounds. -/
+theorem C01_strict_edgeworth_class (c : Cfg) (hwf : CfgWF c) (hnt : c.trapezoid = []) (w : W) :
+    Strict c (clipBounds c.lo c.hi (finalize c w)) := by
+  have hclipIn : InBounds c.sizes c.lo c.hi (clipBounds c.lo c.hi (finalize c w)) :=
+    fun idx _ => clipBounds_in c.lo c.hi hwf.bounds _ idx
+  refine ⟨?_, ?_, by rw [hnt]; exact fun _ h => (by cases h), hclipIn⟩
+  · -- monotonicity
+    intro d hd hm
+    apply clipBounds_mono
+    unfold finalize
+    have hmem : d ∈ monoDims c.sizes c.mono := mem_monoDims.mpr ⟨hd, hm⟩
+    have hhas : hasMono c = true := by
+      unfold hasMono
+      cases hl : monoDims c.sizes c.mono with
+      | nil => rw [hl] at hmem; cases hmem
+      | cons a r => rfl
+    simp only [hhas, Bool.not_true, Bool.false_eq_true, if_false]
+    have h1 := approxMono_mono c.sizes c.mono w hd hm
+    split
+    · exact h1
+    · rw [hnt, approxTrapezoid_nil]
+      apply (approxBounds_affine c.sizes c.lo c.hi hwf.bounds _).mono
+      exact (approxEdgeworth_spec c.sizes c.edgeworth
+        (fun tr h => (hwf.trust_wf tr (List.mem_append_left _ h)).1) hwf.compat _ [] (by simp) (by simp)
+        (by simp)).2 d h1
+  · -- Edgeworth trusts
+    intro tr htr
+    obtain ⟨hwt, hmain⟩ := hwf.trust_wf tr (List.mem_append_left _ htr)
+    have hmem : tr.main ∈ monoDims c.sizes c.mono := mem_monoDims.mpr ⟨hwt.1, hmain⟩
+    have hhas : hasMono c = true := by
+      unfold hasMono
+      cases hl : monoDims c.sizes c.mono with
+      | nil => rw [hl] at hmem; cases hmem
+      | cons a r => rfl
+    have hne : c.edgeworth.isEmpty = false := by
+      cases he : c.edgeworth with
+      | nil => rw [he] at htr; cases htr
+      | cons a r => simp
+    have hfin : finalize c w = approxBounds c.sizes c.lo c.hi
+        (approxEdgeworth c.sizes c.edgeworth (approxMono c.sizes c.mono w)) := by
+      unfold finalize
+      simp only [hhas, hne, Bool.false_and, Bool.not_true, Bool.false_eq_true, if_false, hnt, approxTrapezoid_nil]
+    have hE : EdgeOK c.sizes tr (finalize c w) := by
+      rw [hfin]
+      apply (approxBounds_affine c.sizes c.lo c.hi hwf.bounds _).edgeOK
+      exact (approxEdgeworth_spec c.sizes c.edgeworth
+        (fun tr h => (hwf.trust_wf tr (List.mem_append_left _ h)).1) hwf.compat _ [] (by simp) (by simp)
+        (by simp)).1 tr (Or.inr htr)
+    -- after the bounds projection the clip is the identity on the box
+    have hag : AgreeOn c.sizes (finalize c w) (clipBounds c.lo c.hi (finalize c w)) := by
+      intro idx hr
+      have hb := approxBounds_in c.sizes c.lo c.hi hwf.bounds
+        (approxEdgeworth c.sizes c.edgeworth (approxMono c.sizes c.mono w)) hr
+      rw [← hfin] at hb
+      exact (clipBounds_fix c.lo c.hi _ idx hb.1 hb.2).symm
+    exact EdgeOK.congr hag hE
+
+/-- the same on the EXECUTABLE model that the correspondence check ties to the real code: for
+every table `t` (the Dykstra output), the values `runStage clip (finalizeT c t)` satisfy every
+strict constraint of a class-A configuration. -/
+theorem C01_exec_edgeworth_class (c : Cfg) (hwf : CfgWF c) (hnt : c.trapezoid = []) (t : Table) :
+    Strict c (runStage c.sizes (clipBounds c.lo c.hi) (finalizeT c t)).get := by
+  have hag : AgreeOn c.sizes (runStage c.sizes (clipBounds c.lo c.hi) (finalizeT c t)).get
+      (clipBounds c.lo c.hi (finalize c t.get)) :=
+    runStage_agree (clipBounds_local c.sizes c.lo c.hi)
+      (finalizeT_agree c (by rw [hnt]; exact fun _ h => (by cases h)) (AgreeOn.refl _ _))
+  obtain ⟨h1, h2, _, h4⟩ := C01_strict_edgeworth_class c hwf hnt t.get
+  refine ⟨fun d hd hm => (h1 d hd hm).congr hag.symm, fun tr htr => EdgeOK.congr hag.symm (h2 tr htr),
+    by rw [hnt]; exact fun _ h => (by cases h), fun idx hr => ?_⟩
+  rw [hag idx hr]; exact h4 idx hr
+
+/-! ### non-vacuity: a rank-3, two-trust configuration with both directions meets `CfgWF` -/
+def exampleCfg : Cfg :=
+  { sizes := [3, 2, 3], mono := [true, false, true],
+    edgeworth := [⟨0, 1, true⟩, ⟨2, 1, false⟩], lo := some 0, hi := some 1 }
+example : CfgWF exampleCfg where
+  trust_wf := by
+    intro tr h
+    simp only [exampleCfg, List.append_nil, List.mem_cons, List.not_mem_nil, or_false] at h
+    rcases h with rfl | rfl <;> exact ⟨⟨by decide, by decide, by decide⟩, by decide⟩
+  compat := by
+    simp only [exampleCfg, List.pairwise_cons, List.mem_cons, List.not_mem_nil, or_false, forall_eq,
+      List.Pairwise.nil, and_true, IsEmpty.forall_iff, implies_true]
+    exact ⟨⟨by decide, by decide, by decide⟩, ⟨by decide, by decide, by decide⟩⟩
+  bounds := by intro l h e1 e2; cases e1; cases e2; norm_num
+/-- … and the projection genuinely moves an infeasible kernel of that configuration -/
+example : Table.vals exampleCfg.sizes (finalizeT exampleCfg
+    (Table.ofVals exampleCfg.sizes [3,0,1, 0,2,0, 0,1,5, 1,0,0, 2,2,2, 0,0,1]))
+    ≠ [3,0,1, 0,2,0, 0,1,5, 1,0,0, 2,2,2, 0,0,1] := by decide +kernel
+
+/-! ### finding F-C01-a: the unrestricted statement is false -/
+def witnessCfg : Cfg :=
+  { sizes := [2, 2, 2], mono := [true, true, false], edgeworth := [⟨0, 2, true⟩],
+    trapezoid := [⟨0, 1, false⟩] }
+/-- **counter-witness (F-C01-a).** sizes [2,2,2], monotone axes 0 and 1, Edgeworth (0,2,+),
+trapezoid (0,1,−), kernel [1,0,0,3,0,0,0,0]: the finalisation returns [½,0,½,3/2,2,3/2,½,3/2],
+which DEcreases along the monotone axis 1 from vertex (1,0,0) to (1,1,0). The same input is
+replayed on the real `finalize_constraints` by the check (corpus/C01). -/
+theorem C01_counter_witness :
+    (finalizeT witnessCfg (Table.ofVals [2,2,2] [1,0,0,3,0,0,0,0])).get [1,1,0] <
+    (finalizeT witnessCfg (Table.ofVals [2,2,2] [1,0,0,3,0,0,0,0])).get [1,0,0] := by decide +kernel
+
+theorem C01_counter_witness_values :
+    Table.vals [2,2,2] (finalizeT witnessCfg (Table.ofVals [2,2,2] [1,0,0,3,0,0,0,0])) =
+      [1/2, 0, 1/2, 3/2, 2, 3/2, 1/2, 3/2] := by decide +kernel
+
 end Tfl.C01
